@@ -38,7 +38,7 @@ ASSUMPTIONS = ["parent and 1-3 partners of an added atom come from the harness' 
                "water hydrogens: bond length within 0.06 A of the template value (the optimiser builds O-H = 1.0 A)",
                "the templates the loader hands to the build stages are physically plausible: every template hydrogen lies "
                "0.90-1.15 A from the atom it is bonded to, geminal hydrogens are at least 100 degrees apart, bonded heavy "
-               "atoms are 1.15-1.90 A apart, every torsion is defined over a bonded path (the 194 "
+               "atoms are 1.15-1.90 A apart, every torsion is defined over a bonded path whose axis is no ring bond (the 194 "
                "definitions of the unchanged tree lie within 0.96-1.09 A, >= 108.7 degrees, 1.22-1.83 A): a slipped digit "
                "in a data file would otherwise become 'what the template prescribes'"]
 MIN = {"quick": {"added_atoms_checked": 10000, "fit_events": 9000, "create_atom_events": 12000,
@@ -419,6 +419,21 @@ def run_templates(res):
                                 f"which are not bonded; rotating about it bends the angles at {names[2]}",
                                 template=name, dihedral=dh)
                     break
+            else:
+                b, c = names[1], names[2]
+                if b in ref.map and c in ref.map:
+                    # the axis of a torsion must not be a ring bond: what lies beyond c is turned as a rigid body, which
+                    # tears the ring if it closes back onto b (seed C04j gave PRO chi torsions)
+                    seen, todo = {c}, [c]
+                    while todo:
+                        x = todo.pop()
+                        for y in ref.map[x].bonds:
+                            if y in ref.map and not (x == c and y == b) and y not in seen:
+                                seen.add(y)
+                                todo.append(y)
+                    if b in seen:
+                        res.violate("template/dihedral-axis-in-a-ring", f"template {name}: the axis {b}-{c} of torsion '{dh}' "
+                                    f"is part of a ring", template=name, dihedral=dh)
         res.nt("template", name)
         res.cell("template", "na" if name[:2] in ("RA", "RC", "RG", "RU", "DA", "DC", "DG", "DT") else "aa")
     res.sample = {"kind": "templates"}
